@@ -30,7 +30,8 @@ REQUIRED = ["payload_only_in_payload_msg", "private_payload_release_sound", "dec
             "fact_connection_get_and_predicates", "fact_inbound_stream_order", "fact_read_metadata_shape",
             "outbound_connection_identity_is_dialled_and_proved", "bootstrap_connection_never_authenticated", "outbound_stream_to_release_sound",
             "unopened_outbound_stream_registers_nothing", "failed_outbound_connection_is_reset", "cmAuthenticate_tls_ok",
-            "fact_open_outbound_stream_flow", "fact_open_outbound_streams_loop_and_connect", "fact_connection_peer_updates"]
+            "fact_open_outbound_stream_flow", "fact_open_outbound_streams_loop_and_connect", "fact_connection_peer_updates",
+            "connection_list_identity_safe", "connection_list_to_release_sound", "openOutboundStream_safe", "handleInbound_safe"]
 
 
 def run(ctx):
